@@ -23,5 +23,5 @@ func TestC05(t *testing.T) {
 	bmx.Main(run, model, "C05", 0, run.Report)
 	// the same property at the level of the blob access: real flat / hierarchical / AC stores; a successful Get or a
 	// FindMissing "present" is the touch, survival is checked against the number of NewBlock calls since
-	stx.Main(run, model, "C05store", []string{"C05"}, []string{"flat", "flati", "hier", "hier", "ac"}, 2000, 24000)
+	stx.Main(run, model, "C05store", []string{"C05"}, []string{"flat", "flati", "hier", "hier", "ac"}, 3000, 24000)
 }
